@@ -276,4 +276,261 @@ Proof.
     + unfold P. rewrite E. reflexivity.
 Qed.
 
+(** ** One step of the apply loop, per key *)
+
+Definition kstep (s : state) (w : work) (p : K) : work :=
+  match act_at s p with
+  | Some act => apply (scan (tA s)) (scan (tB s)) w (p, act)
+  | None => w
+  end.
+
+Lemma foldl_plan s w l :
+  foldl (apply (scan (tA s)) (scan (tB s))) w
+    (omap (fun p => match rpath (scan (tA s) !! p) (scan (tB s) !! p) (base_at (arch s) p) with
+                    | Some act => Some (p, act) | None => None end) l)
+  = foldl (kstep s) w l.
+Proof.
+  revert w. induction l as [|p l IH]; intros w; [reflexivity|]. cbn [omap list_omap foldl].
+  unfold kstep at 2. rewrite act_at_scan. destruct (act_at s p) as [act|]; cbn [foldl]; apply IH.
+Qed.
+
+(** pointwise description of a map after the step for key [p]: the conflict name
+    (if the step is a both-changed conflict) holds [l], [p] holds [v], the rest is
+    untouched *)
+Definition upd {V} (m : gmap K V) (p : K) (v : option V) (cq : option (K * V)) (x : K) : option V :=
+  match cq with
+  | Some (q, l) => if decide (x = q) then Some l else if decide (x = p) then v else m !! x
+  | None => if decide (x = p) then v else m !! x
+  end.
+
+Ltac lk := repeat first [ rewrite lookup_insert | rewrite lookup_insert_ne by congruence
+                        | rewrite lookup_delete | rewrite lookup_delete_ne by congruence ].
+Ltac updx := intros x0; unfold upd; repeat case_decide; subst; lk; repeat split; congruence.
+
+Lemma kstep_effect s w p :
+  HashOk s ->
+  (forall q l, conflict s p = Some (q, l) -> q <> p) ->
+  p ∈ keys s ->
+  wErr w = false ->
+  wA w !! p = tA s !! p -> wB w !! p = tB s !! p ->
+  (wC w !! p = base_at (arch s) p \/
+   exists l, tA s !! p = Some l /\ tB s !! p = Some l /\ wC w !! p = Some (Hh l)) ->
+  wErr (kstep s w p) = false /\
+  wConf (kstep s w p) = (if conflict s p then S (wConf w) else wConf w) /\
+  forall x,
+    wA (kstep s w p) !! x = upd (wA w) p (fin s p) (conflict s p) x /\
+    wB (kstep s w p) !! x = upd (wB w) p (fin s p) (conflict s p) x /\
+    wC (kstep s w p) !! x = upd (wC w) p (Hh <$> fin s p) (prod_map id Hh <$> conflict s p) x.
+Proof.
+  intros Hok Hq Hk He HA HB HC. apply elem_of_keys in Hk.
+  unfold kstep, conflict, fin, final_content, act_at in *. unfold Bisync.scan.
+  destruct (tA s !! p) as [cx|] eqn:EA, (tB s !! p) as [cy|] eqn:EB; cbn [fmap option_fmap option_map rpath] in *.
+  - (* present on both sides *)
+    destruct (decide (Hh cx = Hh cy)) as [E|N].
+    + assert (cy = cx) as -> by (symmetry; eapply Hok; eauto).
+      destruct (decide (base_at (arch s) p = Some (Hh cx))) as [Ez|Nz].
+      * (* Noop *) split; [assumption|]. split; [reflexivity|]. simpl.
+        destruct HC as [HC|(l & [= <-] & _ & HC)]; updx.
+      * (* Converge *) unfold Bisync.apply. rewrite He. cbn.
+        rewrite lookup_fmap, EA. cbn. split; [reflexivity|]. split; [reflexivity|]. updx.
+    + destruct (decide (base_at (arch s) p = Some (Hh cy))) as [Ey|Ny].
+      * (* only A changed *)
+        rewrite (bool_decide_eq_false_2 (base_at (arch s) p <> Some (Hh cy))) by (intros X; apply X, Ey).
+        rewrite (bool_decide_eq_true_2 (base_at (arch s) p <> Some (Hh cx))) by (rewrite Ey; congruence).
+        unfold Bisync.apply, Bisync.copy. rewrite He. cbn. rewrite HA, lookup_fmap, EA. cbn.
+        split; [reflexivity|]. split; [reflexivity|]. updx.
+      * rewrite (bool_decide_eq_true_2 (base_at (arch s) p <> Some (Hh cy))) by assumption.
+        destruct (decide (base_at (arch s) p = Some (Hh cx))) as [Ex|Nx].
+        -- (* only B changed *)
+           rewrite (bool_decide_eq_false_2 (base_at (arch s) p <> Some (Hh cx))) by (intros X; apply X, Ex).
+           unfold Bisync.apply, Bisync.copy. rewrite He. cbn. rewrite HB, lookup_fmap, EB. cbn.
+           split; [reflexivity|]. split; [reflexivity|]. updx.
+        -- (* both changed *)
+           rewrite (bool_decide_eq_true_2 (base_at (arch s) p <> Some (Hh cx))) by assumption.
+           rewrite (bool_decide_eq_true_2 (base_at (arch s) p <> Some (Hh cx))) in Hq by assumption.
+           rewrite (bool_decide_eq_true_2 (base_at (arch s) p <> Some (Hh cy))) in Hq by assumption.
+           cbn in Hq. specialize (Hq _ _ eq_refl).
+           unfold Bisync.apply, Bisync.copy. rewrite He. cbn. rewrite !lookup_fmap, EA, EB. cbn.
+           unfold loser, winner in *. destruct (dge (Hh cx) (Hh cy)).
+           ++ rewrite HB. rewrite lookup_insert_ne by congruence. rewrite HB.
+              rewrite lookup_insert_ne by congruence. rewrite HA. cbn.
+              split; [reflexivity|]. split; [reflexivity|]. updx.
+           ++ rewrite HA. rewrite lookup_insert_ne by congruence. rewrite HA.
+              rewrite lookup_insert_ne by congruence. rewrite HB. cbn.
+              split; [reflexivity|]. split; [reflexivity|]. updx.
+  - (* on A only *)
+    destruct HC as [HC|(l & _ & [=] & _)].
+    destruct (base_at (arch s) p) as [zv|] eqn:Ez.
+    + destruct (decide (Hh cx = zv)) as [<-|Nz].
+      * (* DelA *) rewrite decide_True by reflexivity.
+        unfold Bisync.apply. rewrite He. cbn. split; [reflexivity|]. split; [reflexivity|]. updx.
+      * (* delete-vs-modify, A survives *) rewrite decide_False by congruence.
+        unfold Bisync.apply, Bisync.copy. rewrite He. cbn. rewrite !lookup_fmap, EA, HA. cbn.
+        split; [reflexivity|]. split; [reflexivity|]. updx.
+    + rewrite decide_False by discriminate.
+      unfold Bisync.apply, Bisync.copy. rewrite He. cbn. rewrite HA, !lookup_fmap, EA. cbn.
+      split; [reflexivity|]. split; [reflexivity|]. updx.
+  - (* on B only *)
+    destruct HC as [HC|(l & [=] & _)].
+    destruct (base_at (arch s) p) as [zv|] eqn:Ez.
+    + destruct (decide (Hh cy = zv)) as [<-|Nz].
+      * rewrite decide_True by reflexivity.
+        unfold Bisync.apply. rewrite He. cbn. split; [reflexivity|]. split; [reflexivity|]. updx.
+      * rewrite decide_False by congruence.
+        unfold Bisync.apply, Bisync.copy. rewrite He. cbn. rewrite !lookup_fmap, EA, EB, HB. cbn.
+        split; [reflexivity|]. split; [reflexivity|]. updx.
+    + rewrite decide_False by discriminate.
+      unfold Bisync.apply, Bisync.copy. rewrite He. cbn. rewrite HB, !lookup_fmap, EB. cbn.
+      split; [reflexivity|]. split; [reflexivity|]. updx.
+  - destruct Hk as [[? ?]|[? ?]]; discriminate.
+Qed.
+
+(** the same, as a three-way case split on the looked-up path *)
+Lemma kstep_cases s w p :
+  HashOk s -> Fresh s -> p ∈ keys s -> wErr w = false ->
+  wA w !! p = tA s !! p -> wB w !! p = tB s !! p ->
+  (wC w !! p = base_at (arch s) p \/
+   exists l, tA s !! p = Some l /\ tB s !! p = Some l /\ wC w !! p = Some (Hh l)) ->
+  wErr (kstep s w p) = false /\
+  wConf (kstep s w p) = (if conflict s p then S (wConf w) else wConf w) /\
+  forall x,
+    (exists l, conflict s p = Some (x, l) /\
+       wA (kstep s w p) !! x = Some l /\ wB (kstep s w p) !! x = Some l /\ wC (kstep s w p) !! x = Some (Hh l)) \/
+    ((forall l, conflict s p <> Some (x, l)) /\ x = p /\
+       wA (kstep s w p) !! x = fin s p /\ wB (kstep s w p) !! x = fin s p /\ wC (kstep s w p) !! x = Hh <$> fin s p) \/
+    ((forall l, conflict s p <> Some (x, l)) /\ x <> p /\
+       wA (kstep s w p) !! x = wA w !! x /\ wB (kstep s w p) !! x = wB w !! x /\ wC (kstep s w p) !! x = wC w !! x).
+Proof.
+  intros Hok F Hk He HA HB HC.
+  destruct (kstep_effect s w p Hok (fun q l E => fresh_name_ne s p q l F E) Hk He HA HB HC) as (E1 & E2 & E3).
+  split; [exact E1|]. split; [exact E2|]. intros x. destruct (E3 x) as (-> & -> & ->). clear E1 E2 E3.
+  destruct (conflict s p) as [[q l]|]; cbn; unfold upd.
+  - destruct (decide (x = q)) as [->|Nq].
+    + left. exists l. auto.
+    + right. destruct (decide (x = p)) as [->|Np]; [left|right]; (split; [intros l' [= ? ?]; congruence|auto]).
+  - right. destruct (decide (x = p)) as [->|Np]; [left|right]; (split; [intros l' [=]|auto]).
+Qed.
+
+(** ** The invariant of the apply loop *)
+
+Record Inv (s : state) (done : gset K) (w : work) : Prop := {
+  inv_err : wErr w = false;
+  inv_conf : wConf w <> 0 <-> exists p, p ∈ done /\ conflict s p <> None;
+  (* conflict names of processed conflicts hold the loser, recorded *)
+  inv_name : forall p q l, p ∈ done -> conflict s p = Some (q, l) ->
+    wA w !! q = Some l /\ wB w !! q = Some l /\ wC w !! q = Some (Hh l);
+  (* processed keys have their final values *)
+  inv_done : forall x, x ∈ done ->
+    wA w !! x = fin s x /\ wB w !! x = fin s x /\ wC w !! x = Hh <$> fin s x;
+  (* unprocessed keys still hold what the scan saw (a conflict copy written over an
+     unprocessed key re-wrote what was there); the record is the pruned base, or
+     already the digest of the repeated loser *)
+  inv_todo : forall x, x ∈ keys s -> x ∉ done ->
+    wA w !! x = tA s !! x /\ wB w !! x = tB s !! x /\
+    (wC w !! x = base_at (arch s) x \/
+     exists l, tA s !! x = Some l /\ tB s !! x = Some l /\ wC w !! x = Some (Hh l));
+  (* everything else is absent and unrecorded *)
+  inv_out : forall x, x ∉ keys s -> (forall p l, p ∈ done -> conflict s p <> Some (x, l)) ->
+    wA w !! x = None /\ wB w !! x = None /\ wC w !! x = None;
+}.
+
+Definition w0 (s : state) : work :=
+  {| wA := tA s; wB := tB s; wC := c0 s; wConf := 0; wErr := false |}.
+
+Lemma inv_init s : Inv s ∅ (w0 s).
+Proof.
+  split; cbn.
+  - reflexivity.
+  - split; [intros X; exfalso; apply X; reflexivity|]. intros (p & Hp & _). set_solver.
+  - intros p q l Hp. set_solver.
+  - intros x Hx. set_solver.
+  - intros x Hx _. split; [reflexivity|]. split; [reflexivity|]. left. apply c0_lookup_in, Hx.
+  - intros x Hx _. pose proof (c0_lookup_out s x Hx) as Ec. apply not_elem_of_keys in Hx as [Ha Hb]. auto.
+Qed.
+
+Lemma inv_step s done w p :
+  HashOk s -> Fresh s -> done ⊆ keys s -> p ∈ keys s -> p ∉ done ->
+  Inv s done w -> Inv s ({[p]} ∪ done) (kstep s w p).
+Proof.
+  intros Hok F Hsub Hk Hnd [Ie Ic In Id It Io].
+  destruct (It p Hk Hnd) as (HA & HB & HC).
+  destruct (kstep_cases s w p Hok F Hk Ie HA HB HC) as (E1 & E2 & E3).
+  split.
+  - exact E1.
+  - rewrite E2. destruct (conflict s p) as [[q l]|] eqn:Ec.
+    + split; [|intros _ X; discriminate X]. intros _. exists p. split; [set_solver|congruence].
+    + rewrite Ic. split; intros (p' & Hp' & Hc); exists p'; (split; [|exact Hc]); [set_solver|].
+      apply elem_of_union in Hp' as [Hp'|Hp']; [|exact Hp']. apply elem_of_singleton in Hp'. congruence.
+  - intros p' q l Hp' Ec'.
+    destruct (E3 q) as [(l2 & Ec & -> & -> & ->)|[(Nc & -> & -> & -> & ->)|(Nc & Nq & -> & -> & ->)]].
+    + assert (p' = p) as -> by (eapply (proj2 F); eauto). rewrite Ec in Ec'. injection Ec' as ->. auto.
+    + destruct (fresh_name_key s p' p l F Ec' Hk) as [Ea Eb]. rewrite (fin_same _ _ _ Ea Eb). auto.
+    + apply (In p'); [|exact Ec']. apply elem_of_union in Hp' as [Hp'|Hp']; [|exact Hp'].
+      apply elem_of_singleton in Hp'. subst p'. exfalso. exact (Nc _ Ec').
+  - intros x Hx.
+    assert (Hxk : x ∈ keys s).
+    { apply elem_of_union in Hx as [Hx|Hx]; [apply elem_of_singleton in Hx; congruence|apply Hsub, Hx]. }
+    destruct (E3 x) as [(l2 & Ec & -> & -> & ->)|[(Nc & -> & -> & -> & ->)|(Nc & Nq & -> & -> & ->)]].
+    + destruct (fresh_name_key s p x l2 F Ec Hxk) as [Ea Eb]. rewrite (fin_same _ _ _ Ea Eb). auto.
+    + auto.
+    + apply Id. apply elem_of_union in Hx as [Hx|Hx]; [|exact Hx]. apply elem_of_singleton in Hx. contradiction.
+  - intros x Hxk Hx.
+    destruct (E3 x) as [(l2 & Ec & -> & -> & ->)|[(Nc & -> & _)|(Nc & Nq & -> & -> & ->)]].
+    + destruct (fresh_name_key s p x l2 F Ec Hxk) as [Ea Eb]. rewrite Ea, Eb. split; [reflexivity|].
+      split; [reflexivity|]. right. exists l2. auto.
+    + exfalso. apply Hx. set_solver.
+    + apply It; [exact Hxk|]. set_solver.
+  - intros x Hxk Hx.
+    destruct (E3 x) as [(l2 & Ec & _)|[(Nc & -> & _)|(Nc & Nq & -> & -> & ->)]].
+    + exfalso. apply (Hx p l2); [set_solver|exact Ec].
+    + contradiction.
+    + apply Io; [exact Hxk|]. intros p' l Hp'. apply Hx. set_solver.
+Qed.
+
+Lemma fold_inv s : HashOk s -> Fresh s ->
+  forall todo done w, NoDup todo -> (forall x, x ∈ todo -> x ∈ keys s /\ x ∉ done) -> done ⊆ keys s ->
+  Inv s done w -> Inv s (list_to_set todo ∪ done) (foldl (kstep s) w todo).
+Proof.
+  intros Hok F todo. induction todo as [|p todo IH]; intros done w Hnd Hin Hsub I; cbn [foldl list_to_set].
+  - rewrite (left_id_L ∅ (∪)). exact I.
+  - apply NoDup_cons in Hnd as [Hp Hnd]. destruct (Hin p ltac:(left)) as [Hpk Hpd].
+    replace ({[p]} ∪ list_to_set todo ∪ done) with (list_to_set todo ∪ ({[p]} ∪ done)) by set_solver.
+    apply IH.
+    + exact Hnd.
+    + intros x Hx. destruct (Hin x ltac:(right; exact Hx)) as [Hxk Hxd]. split; [exact Hxk|].
+      intros [Hx'|Hx']%elem_of_union; [|contradiction]. apply elem_of_singleton in Hx'. subst x. contradiction.
+    + intros x [Hx|Hx]%elem_of_union; [apply elem_of_singleton in Hx; subst x; exact Hpk|apply Hsub, Hx].
+    + apply inv_step; assumption.
+Qed.
+
+(** the working state when the loop ends *)
+Definition wfinal (s : state) : work :=
+  foldl (kstep s) (w0 s) (plan_keys (scan (tA s)) (scan (tB s))).
+
+Lemma run_unfold s :
+  bisync_run s =
+  (if wErr (wfinal s)
+   then ({| tA := wA (wfinal s); tB := wB (wfinal s); arch := arch s |}, ExitIoError,
+         plan (scan (tA s)) (scan (tB s)) (arch s))
+   else ({| tA := wA (wfinal s); tB := wB (wfinal s); arch := Some (wC (wfinal s)) |},
+         (if decide (wConf (wfinal s) = 0) then ExitOk else ExitConflicts),
+         plan (scan (tA s)) (scan (tB s)) (arch s))).
+Proof.
+  unfold Bisync.bisync_run. cbv zeta.
+  assert (E : forall w, foldl (apply (scan (tA s)) (scan (tB s))) w (plan (scan (tA s)) (scan (tB s)) (arch s))
+                        = foldl (kstep s) w (plan_keys (scan (tA s)) (scan (tB s)))) by (intros w; apply foldl_plan).
+  rewrite E. reflexivity.
+Qed.
+
+Lemma final_inv s : HashOk s -> Fresh s -> Inv s (keys s) (wfinal s).
+Proof.
+  intros Hok F. unfold wfinal.
+  pose proof (fold_inv s Hok F (plan_keys (scan (tA s)) (scan (tB s))) ∅ (w0 s)) as X.
+  rewrite plan_keys_scan, (right_id_L ∅ (∪)) in X. apply X.
+  - apply NoDup_plan_keys.
+  - intros x Hx. split; [|set_solver]. rewrite <- plan_keys_scan. apply elem_of_list_to_set, Hx.
+  - set_solver.
+  - apply inv_init.
+Qed.
+
 End BisyncProofs.
